@@ -29,7 +29,10 @@ def sha(path):
         return hashlib.sha256(f.read()).hexdigest()
 
 
-def make_config(rnd, n, pre_run):
+LAYOUTS = [(i, k) for i in ("none", "shared", "list") for k in ("none", "shared", "list", "samedict")]
+
+
+def make_config(rnd, n, pre_run, layout=None):
     kinds = [rnd.choice(["HMC", "RWMH"]) for _ in range(n)]
     seeds = [rnd.randrange(1 << 30) for _ in range(n)]
     d = rnd.choice([2, 3])
@@ -38,7 +41,9 @@ def make_config(rnd, n, pre_run):
     shared_init = rnd.random() < 0.4
     init_mode = rnd.choice(["none", "shared", "list"])
     inits = [[rnd.uniform(-1, 1) for _ in range(d)] for _ in range(n)]
-    kw_mode = rnd.choice(["none", "shared", "list"])
+    kw_mode = rnd.choice(["none", "shared", "list", "samedict"])
+    if layout is not None:
+        init_mode, kw_mode = layout
     steps = [rnd.choice([0.2, 0.5, 1.0]) for _ in range(n)]
     thin = rnd.choice([1, 1, 2])
     P = rnd.choice([4, 6, 10])
@@ -50,7 +55,7 @@ def kwargs_of(cfg, i, kind):
     """the keyword arguments chain i is given (the same for the stand-alone reference)"""
     if cfg["kw_mode"] == "none":
         kw = {}
-    elif cfg["kw_mode"] == "shared":
+    elif cfg["kw_mode"] in ("shared", "samedict"):
         kw = {"online_thinning": cfg["thin"], "disable_progressbar": True}
     else:
         kw = {"stepsize": cfg["steps"][i], "disable_progressbar": True}
@@ -110,10 +115,14 @@ def job(cfg, tmp):
         kw = None
     elif cfg["kw_mode"] == "shared":
         kw = kwargs_of(cfg, 0, "RWMH")
+    elif cfg["kw_mode"] == "samedict":
+        kw = [kwargs_of(cfg, 0, "RWMH")] * n          # a list that repeats one dictionary object
     else:
         kw = [kwargs_of(cfg, i, cfg["kinds"][i]) for i in range(n)]
+    args_before = repr((init, kw))
     ctrl = S.ParallelSampleSMP(seed=cfg["controller_seed"])
     ctrl.sample(samplers, files, posts, overwrite_existing_files=True, proposals=cfg["P"], exchange=False, initial_model=init, kwargs=kw)
+    args_after = repr((init, kw))
     after = [public_state(s) for s in samplers]
     par = [read_samples(f) for f in files]
     post_hashes = {i: sha(os.path.join(tmp, f"pre_{i}.h5")) for i in pre_hashes}
@@ -127,7 +136,7 @@ def job(cfg, tmp):
             reuse.append(read_samples(fn))
         except Exception as e:
             reuse.append(repr(e))
-    return {"par": par, "before": before, "after": after, "pre": pre_hashes, "post": post_hashes, "reuse": reuse}
+    return {"par": par, "before": before, "after": after, "pre": pre_hashes, "post": post_hashes, "reuse": reuse, "args_unchanged": args_before == args_after}
 
 
 def reference(cfg, tmp):
@@ -156,11 +165,12 @@ def run(tier, seed):
                "initial model none/shared/per-chain, kwargs none/shared/per-chain, samplers with and without an earlier run: every file vs the stand-alone run "
                "of the same sampler (byte-identical arrays), sampler objects unchanged, earlier files untouched, objects re-usable; non-trivial = >= 2 chains "
                "with per-chain arguments")
-    ns = [1, 2, 3, 4, 6, 2, 3, 5] if not thorough else [1, 2, 3, 4, 5, 6, 8, 12, 16, 2, 3, 4, 32, 64, 128]
+    # every layout of (initial model, kwargs) in {none, shared, per chain} x {none, shared, per chain, one dict repeated} with >= 2 chains, then random ones
+    ns = [2, 3, 2, 3, 4, 2, 3, 2, 3, 2, 3, 2, 1, 6] if not thorough else [2, 3, 2, 3, 4, 2, 3, 2, 3, 2, 3, 2, 1, 2, 3, 4, 5, 6, 8, 12, 16, 2, 3, 4, 32, 64, 128]
     reqs, metas = [], []
     with scratch() as tmp:
         for ci, n in enumerate(ns):
-            cfg = make_config(rnd, n, pre_run=(ci % 3 == 2))
+            cfg = make_config(rnd, n, pre_run=(ci % 3 == 2), layout=LAYOUTS[ci] if ci < len(LAYOUTS) else None)
             sub = os.path.join(tmp, f"c{ci}")
             os.makedirs(sub)
             status, res = supervised(job, (cfg, sub), timeout=120 if n <= 16 else 300, tmpdir=tmp)
@@ -188,6 +198,8 @@ def run(tier, seed):
             if res["before"] != res["after"]:
                 ch = [k for i in range(n) for k in res["before"][i] if res["before"][i][k] != res["after"][i][k]]
                 problems.append(f"the sampler objects handed to the controller were modified: {sorted(set(ch))}")
+            if not res["args_unchanged"]:
+                problems.append("the initial_model / kwargs objects passed by the caller were modified by the parallel run")
             if res["pre"] != res["post"]:
                 problems.append("a file written earlier by one of the samplers was modified by the parallel run")
             for i in range(n):
@@ -198,14 +210,14 @@ def run(tier, seed):
             if problems:
                 st.disagree(stim, "parallel = sequential", problems, problems[0])
                 findings.append(Finding("C20", problems[0], {"kind": "files", "problem": problems[0][:32]}, {"oracle": "files", "config": cfg, "problems": problems}))
-            reqs.append(f"c20.route {n} {int(cfg['init_mode'] != 'list')} {int(cfg['kw_mode'] != 'list')}")
+            reqs.append(f"c20.route {n} {int(cfg['init_mode'] != 'list')} {int(cfg['kw_mode'] not in ('list', 'samedict'))}")
             metas.append((stim, n, cfg))
     for (stim, n, cfg), ans in zip(metas, lean_batch(reqs)):
         toks = ans[3:].split()
         for i, t in enumerate(toks):
             a, b = t.split(":")
             exp_a = "1000" if cfg["init_mode"] != "list" else str(i)
-            exp_b = "1000" if cfg["kw_mode"] != "list" else str(i)
+            exp_b = "1000" if cfg["kw_mode"] not in ("list", "samedict") else str(i)
             if (a, b) != (exp_a, exp_b):
                 st.disagree(stim, (exp_a, exp_b), (a, b), "model routing")
     return [st], findings
